@@ -52,10 +52,11 @@ VARIABLES pc,          \* pc[t]
           dispatched,  \* dispatched[r] : how often the reply frame of r was dispatched
           receivedBy,  \* history: which thread received the reply of r
           stalls,      \* history: set of <<thread, where>> that had to be released by a timeout
-          expired      \* clients whose (30 s) timeout has run out while they were blocked
+          expired,     \* clients whose (30 s) timeout has run out while they were blocked
+          woke         \* history: woke[t] = t has come out of a blocking operation since the result it waits for was published
 
 vars == <<pc, nxt, cur, wr, sendq, sendlock, sent, replied, chan, recvlock, condlock, waiters, notified,
-          data, cb, ready, value, dispatched, receivedBy, stalls, expired>>
+          data, cb, ready, value, dispatched, receivedBy, stalls, expired, woke>>
 
 Init == /\ pc = [t \in Threads |-> "start"]
         /\ nxt = [t \in Clients |-> 1]
@@ -72,6 +73,7 @@ Init == /\ pc = [t \in Threads |-> "start"]
         /\ receivedBy = [r \in AllReqs |-> None]
         /\ stalls = {}
         /\ expired = {}
+        /\ woke = [t \in Clients |-> FALSE]
 
 IsBg(t) == t = Bg
 
@@ -104,6 +106,7 @@ Start(t) == /\ pc[t] = "start"
                ELSE Begin(t)
             /\ UNCHANGED <<sent, replied, chan, recvlock, condlock, waiters, notified, data, ready, value,
                            dispatched, receivedBy, stalls, expired>>
+            /\ woke' = woke
 
 CWrite(t) == /\ pc[t] = "c_write"
              /\ sent' = sent \cup {wr[t]}
@@ -116,18 +119,19 @@ CWrite(t) == /\ pc[t] = "c_write"
                      /\ pc' = [pc EXCEPT ![t] = "w_check"]
                      /\ UNCHANGED sendq
              /\ UNCHANGED <<nxt, cur, replied, chan, recvlock, condlock, waiters, notified, data, cb, ready, value,
-                            dispatched, receivedBy, stalls, expired>>
+                            dispatched, receivedBy, stalls, expired, woke>>
 
 \* ------------------------------------------------------------------ waiting
 WCheck(t) == /\ pc[t] = "w_check"
              /\ pc' = [pc EXCEPT ![t] = IF ready[cur[t]] THEN "w_final" ELSE "s_cond_in"]
              /\ UNCHANGED <<nxt, cur, wr, sendq, sendlock, sent, replied, chan, recvlock, condlock, waiters, notified,
-                            data, cb, ready, value, dispatched, receivedBy, stalls, expired>>
+                            data, cb, ready, value, dispatched, receivedBy, stalls, expired, woke>>
 
 WFinal(t) == /\ pc[t] = "w_final"
              /\ Begin(t)
              /\ UNCHANGED <<sent, replied, chan, recvlock, condlock, waiters, notified, data, ready, value,
                             dispatched, receivedBy, stalls, expired>>
+             /\ woke' = [woke EXCEPT ![t] = FALSE]
 
 \* serve() has returned to its caller
 Return(t) == IF IsBg(t) THEN "b_sleep" ELSE "w_check"
@@ -139,12 +143,12 @@ CondIn(t, from, to) == /\ pc[t] = from
                        /\ condlock = None
                        /\ condlock' = t
                        /\ pc' = [pc EXCEPT ![t] = to]
-                       /\ UNCHANGED <<U1, chan, recvlock, waiters, notified, data, receivedBy, stalls, expired>>
+                       /\ UNCHANGED <<U1, chan, recvlock, waiters, notified, data, receivedBy, stalls, expired, woke>>
 
 CondOut(t, from, to) == /\ pc[t] = from
                         /\ condlock' = None
                         /\ pc' = [pc EXCEPT ![t] = to]
-                        /\ UNCHANGED <<U1, chan, recvlock, waiters, notified, data, receivedBy, stalls, expired>>
+                        /\ UNCHANGED <<U1, chan, recvlock, waiters, notified, data, receivedBy, stalls, expired, woke>>
 
 SCondIn(t) == CondIn(t, "s_cond_in", "s_trylock")
 
@@ -152,14 +156,14 @@ STryLock(t) == /\ pc[t] = "s_trylock"
                /\ IF recvlock = None
                   THEN recvlock' = t /\ pc' = [pc EXCEPT ![t] = "s_cond_out1"]
                   ELSE UNCHANGED recvlock /\ pc' = [pc EXCEPT ![t] = "s_wait"]
-               /\ UNCHANGED <<U1, chan, condlock, waiters, notified, data, receivedBy, stalls, expired>>
+               /\ UNCHANGED <<U1, chan, condlock, waiters, notified, data, receivedBy, stalls, expired, woke>>
 
 SWait(t) == /\ pc[t] = "s_wait"
             /\ waiters' = waiters \cup {t}
             /\ notified' = notified \ {t}
             /\ condlock' = None
             /\ pc' = [pc EXCEPT ![t] = "s_blocked"]
-            /\ UNCHANGED <<U1, chan, recvlock, data, receivedBy, stalls, expired>>
+            /\ UNCHANGED <<U1, chan, recvlock, data, receivedBy, stalls, expired, woke>>
 
 \* woken by notify_all; the background thread waits with timeout 0 and leaves at once in any case
 SBlocked(t) == /\ pc[t] = "s_blocked"
@@ -168,6 +172,7 @@ SBlocked(t) == /\ pc[t] = "s_blocked"
                /\ notified' = notified \ {t}
                /\ pc' = [pc EXCEPT ![t] = "s_reacq"]
                /\ UNCHANGED <<U1, chan, recvlock, condlock, data, receivedBy, stalls, expired>>
+               /\ woke' = IF t \in Clients /\ cur[t] # None /\ ready[cur[t]] THEN [woke EXCEPT ![t] = TRUE] ELSE woke
 
 SReacq(t) == CondIn(t, "s_reacq", "s_cond_out2")
 SCondOut2(t) == CondOut(t, "s_cond_out2", Return(t))
@@ -179,10 +184,11 @@ SPoll(t) == /\ pc[t] = "s_poll"
                \/ /\ chan = <<>> /\ IsBg(t)          \* poll(0): nothing there
                   /\ pc' = [pc EXCEPT ![t] = "s_release"]
             /\ UNCHANGED <<U1, chan, recvlock, condlock, waiters, notified, data, receivedBy, stalls, expired>>
+            /\ woke' = IF t \in Clients /\ cur[t] # None /\ ready[cur[t]] THEN [woke EXCEPT ![t] = TRUE] ELSE woke
 
 SHdr(t) == /\ pc[t] = "s_hdr"
            /\ pc' = [pc EXCEPT ![t] = "s_body"]
-           /\ UNCHANGED <<U1, chan, recvlock, condlock, waiters, notified, data, receivedBy, stalls, expired>>
+           /\ UNCHANGED <<U1, chan, recvlock, condlock, waiters, notified, data, receivedBy, stalls, expired, woke>>
 
 SBody(t) == /\ pc[t] = "s_body"
             /\ chan # <<>>
@@ -190,12 +196,12 @@ SBody(t) == /\ pc[t] = "s_body"
             /\ receivedBy' = [receivedBy EXCEPT ![Head(chan)] = t]
             /\ chan' = Tail(chan)
             /\ pc' = [pc EXCEPT ![t] = "s_release"]
-            /\ UNCHANGED <<U1, recvlock, condlock, waiters, notified, stalls, expired>>
+            /\ UNCHANGED <<U1, recvlock, condlock, waiters, notified, stalls, expired, woke>>
 
 SRelease(t) == /\ pc[t] = "s_release"
                /\ recvlock' = None
                /\ pc' = [pc EXCEPT ![t] = "s_ncond_in"]
-               /\ UNCHANGED <<U1, chan, condlock, waiters, notified, data, receivedBy, stalls, expired>>
+               /\ UNCHANGED <<U1, chan, condlock, waiters, notified, data, receivedBy, stalls, expired, woke>>
 
 SNCondIn(t) == CondIn(t, "s_ncond_in", "s_notify")
 
@@ -203,11 +209,11 @@ SNotify(t) == /\ pc[t] = "s_notify"
               /\ notified' = notified \cup waiters
               /\ waiters' = {}
               /\ pc' = [pc EXCEPT ![t] = "s_ncond_out"]
-              /\ UNCHANGED <<U1, chan, recvlock, condlock, data, receivedBy, stalls, expired>>
+              /\ UNCHANGED <<U1, chan, recvlock, condlock, data, receivedBy, stalls, expired, woke>>
 
 SNCondOut(t) == CondOut(t, "s_ncond_out", IF data[t] = None THEN Return(t) ELSE "s_dispatch")
 
-U2 == <<nxt, cur, wr, sendq, sendlock, sent, replied, chan, recvlock, condlock, waiters, notified, receivedBy, stalls, expired>>
+U2 == <<nxt, cur, wr, sendq, sendlock, sent, replied, chan, recvlock, condlock, waiters, notified, receivedBy, stalls, expired, woke>>
 
 SDispatch(t) == /\ pc[t] = "s_dispatch"
                 /\ IF data[t] \in cb
@@ -245,7 +251,7 @@ PeerReply(r) == /\ r \in sent \ replied
                 /\ replied' = replied \cup {r}
                 /\ chan' = Append(chan, r)
                 /\ UNCHANGED <<pc, nxt, cur, wr, sendq, sendlock, sent, recvlock, condlock, waiters, notified, data, cb,
-                               ready, value, dispatched, receivedBy, stalls, expired>>
+                               ready, value, dispatched, receivedBy, stalls, expired, woke>>
 
 \* a thread cannot take a step
 Blocked(t) == \/ pc[t] = "done"
@@ -265,10 +271,11 @@ NothingToCome == chan = <<>> /\ sent = replied /\ sendq = <<>>
 Expire == /\ Quiescent /\ NothingToCome
           /\ \E t \in Clients : pc[t] # "done"
           /\ expired = {}
+        /\ woke = [t \in Clients |-> FALSE]
           /\ expired' = {t \in Clients : pc[t] \in {"s_poll", "s_blocked"}}
           /\ stalls' = stalls \cup {<<t, pc[t]>> : t \in {u \in Clients : pc[u] \in {"s_poll", "s_blocked"}}}
           /\ UNCHANGED <<pc, nxt, cur, wr, sendq, sendlock, sent, replied, chan, recvlock, condlock, waiters, notified,
-                         data, cb, ready, value, dispatched, receivedBy>>
+                         data, cb, ready, value, dispatched, receivedBy, woke>>
 
 TimeoutWake(t) == /\ t \in expired
                   /\ \/ /\ pc[t] = "s_poll" /\ chan = <<>>
@@ -279,6 +286,7 @@ TimeoutWake(t) == /\ t \in expired
                         /\ waiters' = waiters \ {t}
                         /\ UNCHANGED notified
                   /\ expired' = expired \ {t}
+                  /\ woke' = IF ready[cur[t]] THEN [woke EXCEPT ![t] = TRUE] ELSE woke
                   /\ UNCHANGED <<nxt, cur, wr, sendq, sendlock, sent, replied, chan, recvlock, condlock, data, cb,
                                  ready, value, dispatched, receivedBy, stalls>>
 
@@ -322,20 +330,17 @@ Termination == <>AllDone
 (* C14 *)
 Waiting(t) == pc[t] \notin {"done", "start"}
 Stalled(t) == /\ t \in Clients /\ Waiting(t) /\ cur[t] # None
-              /\ Quiescent /\ NothingToCome
+              /\ Quiescent              \* no thread can take a step: only further traffic or a timeout releases t
               /\ ready[cur[t]]
 \* the property as stated: no waiter is left sleeping once its reply has been processed
 NoStall == \A t \in Clients : ~Stalled(t)
-\* the one way the pinned code is known to violate it: the reply was received by ANOTHER thread, the waiter was woken
-\* by notify_all before the result was published, went back into serve(), took the receive lock and sleeps in poll()
-\* ... and, as a consequence, a second waiter whose result was published between its readiness check and its try-lock
-\* sleeps in the condition wait behind such a stalled lock holder
+\* the one way the pinned code is known to violate it (hand-off): the reply was received by ANOTHER thread, and the
+\* waiter has not come out of a blocking operation since the result was published - it did its readiness check before
+\* the publication (notify_all precedes _dispatch) and went on into poll() or the condition wait
 KnownHandoff(t) == /\ Stalled(t)
                    /\ receivedBy[cur[t]] # t
-                   /\ \/ pc[t] = "s_poll"
-                      \/ /\ pc[t] = "s_blocked"
-                         /\ recvlock \in Clients \ {t}
-                         /\ pc[recvlock] = "s_poll"
+                   /\ ~woke[t]
+                   /\ pc[t] = "s_blocked" => recvlock \in Threads \ {t}    \* behind a lock holder, who will notify
 OnlyKnownStalls == \A t \in Clients : Stalled(t) => KnownHandoff(t)
 \* a request whose reply is not processed yet never needs a timeout (that would be a lost reply / lost wake-up)
 NoHang == ~(Quiescent /\ NothingToCome /\ \E t \in Clients : Waiting(t) /\ cur[t] # None /\ ~ready[cur[t]])
